@@ -236,6 +236,7 @@ def routes(ng: int, npost: int, r1: int, m1: int, r2: int, m2: int, bad: int, re
             return verdict(False)                       # exactly the arity-1 handlers are registered (no /dyad)
         params = [{}, {"a": "1"}, {"a": "x y", "b": ""}, {"k": "é\n"}]
         reqs = [(r1, m1, params[(r1 + 2 * m1) % 4]), (r2, m2, params[2])]
+        responses = []
         for qi, (r, m, prm) in enumerate(reqs):
             table = gets if m == 0 else posts
             route = (gp if m == 0 else pp) % r
@@ -248,6 +249,10 @@ def routes(ng: int, npost: int, r1: int, m1: int, r2: int, m2: int, bad: int, re
             kind, resp = step(table[route](req))
             if kind != 'ret':
                 return verdict(False)                   # the closure itself never raises
+            if any(resp is r0 for r0 in responses):
+                return verdict(False)                   # every request gets a response object of its own (an aiohttp
+                                                        # Response can be sent once; a shared one answers only the first request)
+            responses.append(resp)
             want_tag = hid
             if redefine and qi == 1 and reqs[0][:2] == (r, m):
                 want_tag = 100 + hid                    # the redefined handler is the one called now
@@ -266,7 +271,7 @@ def routes(ng: int, npost: int, r1: int, m1: int, r2: int, m2: int, bad: int, re
         if ng > 0:
             n0 = len(LOG)
             kind, resp = step(gets[gp % 0](_Req("POST", {})))
-            if kind != 'ret' or resp.status != 400 or len(LOG) != n0:
+            if kind != 'ret' or resp.status != 400 or len(LOG) != n0 or any(resp is r0 for r0 in responses):
                 return verdict(False)
         # .webc stops it, once
         runner = handle.runner
@@ -298,8 +303,11 @@ class _Websockets:
 
 
 class _Sock:
-    def __init__(self, script):
+    def __init__(self, script, closed=False):
         self.script = list(script); self.sent = []
+        # the websockets library still hands out messages that had arrived before the connection reached CLOSED: `closed` may be
+        # true while recv() keeps returning queued messages
+        self.closed = closed; self.open = not closed
 
     async def recv(self):
         if not self.script:
@@ -310,20 +318,30 @@ class _Sock:
         self.sent.append(m)
 
 
-def ws_messages(n: int, i0: int, i1: int, i2: int, fail: int) -> bool:
+def ws_messages(n: int, i0: int, i1: int, i2: int, fail: int, peer_closed: bool) -> bool:
     """
-    pre: 0 <= n <= 3
+    pre: 0 <= n <= CFG.get('nmax', 3)
     pre: 0 <= i0 < len(MSGS) and 0 <= i1 < len(MSGS) and 0 <= i2 < len(MSGS)
     pre: -1 <= fail <= 2
     post: _
     """
     # n inbound messages in a symbolic order; each is decoded and handed to .ws.m exactly once, in arrival order;
-    # on_message hooks may fail (fail = index) without losing the message
+    # on_message hooks may fail (fail = index) without losing the message; the peer may already have closed the connection while
+    # its burst is still queued.  All inputs come from finite domains: the solver enumerates them and the listener then runs
+    # on concrete messages with the tracer off (same code, native speed).
     enter()
-    hooks = []
     n = pick([0, 1, 2, 3], n)
     script = [pick(MSGS, i) for i in [i0, i1, i2][:n]]
-    sock = _Sock(script)
+    fail = pick([-1, 0, 1, 2], fail + 1)
+    closed = True if peer_closed else False
+    with _untraced():
+        ok = _ws_run(n, script, fail, closed)
+    return verdict(ok)
+
+
+def _ws_run(n, script, fail, closed):
+    hooks = []
+    sock = _Sock(script, closed=closed)                             # closed: the peer sent its burst and closed at once
     saved = {k: getattr(WS, k) for k in ("websockets", "logging", "run_command_on_klongloop")}
 
     class _L:
@@ -350,15 +368,15 @@ def ws_messages(n: int, i0: int, i1: int, i2: int, fail: int) -> bool:
         for j in range(n):
             kind, v = step(nc._listen(on_message))
             if kind != 'ret':
-                return verdict(False)
+                return False
         kind, v = step(nc._listen(on_message))
         if not (kind == 'exc' and isinstance(v, WS.KlongWSConnectionFailureException)):
-            return verdict(False)                       # a closed socket ends the listener with the connection error
+            return False                                # a closed socket ends the listener with the connection error
         want = [json.loads(s) for s in script]
         ok = seen == want and hooks == want and len(k._context._context) == depth0
         # a value sent through the connection arrives as its JSON encoding
         ok = ok and json.loads(WS.encode_message({"a": [1, 2], "b": "x"})) == {"a": [1, 2], "b": "x"}
-        return verdict(ok)
+        return ok
     finally:
         for kk, vv in saved.items():
             setattr(WS, kk, vv)
@@ -381,5 +399,5 @@ def obligations(tier):
         for npost in range(4):
             obs.append({"name": "http routes, %d GET / %d POST routes" % (ng, npost), "fn": "routes", "cfg": {"ng": ng, "npost": npost},
                         "timeout": 400 if q else 1500})
-    obs.append({"name": "websocket messages", "fn": "ws_messages", "cfg": {}, "timeout": 300})
+    obs.append({"name": "websocket messages", "fn": "ws_messages", "cfg": {"nmax": 2 if q else 3}, "timeout": 300 if q else 3000})
     return obs
